@@ -25,15 +25,19 @@ CONSTANTS Msgs,        \* message ids 1..n
           KeyOf,       \* message id -> table-group key (an integer)
           TmplOf,      \* message id -> template id
           Bad,         \* message ids whose decode fails (after the tables were loaded)
+          Strict,      \* message ids whose identification names tables that are not all installed: the decoder
+                       \* falls back to the tables that exist, the encoder (which does not) refuses
           TgLimit, CompMax, MaxLen
 
-VARIABLES tg, comp, objs, lenient, hist
-vars == <<tg, comp, objs, lenient, hist>>
-View == <<tg, comp, objs, lenient>>
+VARIABLES tg, comp, objs, lenient, resolved, hist
+vars == <<tg, comp, objs, lenient, resolved, hist>>
+View == <<tg, comp, objs, lenient, resolved>>
 
 (* lenient: the coder object has been used with expected values not enforced - a per-call option that must leave
    nothing behind, which is why the model keeps it as state: every operation is exercised before AND after it *)
-Init == tg = <<>> /\ comp = {} /\ objs = {} /\ lenient = FALSE /\ hist = <<>>
+(* resolved: which path asked first for the tables of an incomplete identification ("none", "forgiving" = decoder,
+   "strict" = encoder) - again state that must not exist, kept so that both orders are exercised *)
+Init == tg = <<>> /\ comp = {} /\ objs = {} /\ lenient = FALSE /\ resolved = "none" /\ hist = <<>>
 
 Has(s, x) == \E i \in 1..Len(s) : s[i] = x
 (* loading a table group: drop the most recent entries until there is room, then insert *)
@@ -49,22 +53,28 @@ Step(op, m) == hist' = Append(hist, [op |-> op, m |-> m]) /\ Len(hist) < MaxLen
 
 Decode(m) == /\ m \in Msgs \ Bad /\ Step("decode", m)
              /\ tg' = Load(KeyOf[m]) /\ comp' \in Compile(TmplOf[m], KeyOf[m]) /\ objs' = objs \cup {m} /\ UNCHANGED lenient
+             /\ resolved' = IF m \in Strict /\ resolved = "none" THEN "forgiving" ELSE resolved
 DecodeFails(m) == /\ m \in Bad /\ Step("decode_fails", m)
-                  /\ tg' = Load(KeyOf[m]) /\ UNCHANGED <<comp, objs, lenient>>
+                  /\ tg' = Load(KeyOf[m]) /\ UNCHANGED <<comp, objs, lenient, resolved>>
 (* the damaged message decoded with expected values not enforced (ignore_value_expectation): it succeeds; the option
    belongs to that call only - afterwards the same coder must refuse the message again *)
 DecodeLenient(m) == /\ m \in Bad /\ Step("decode_ive", m)
-                    /\ tg' = Load(KeyOf[m]) /\ lenient' = TRUE /\ UNCHANGED <<comp, objs>>
-Encode(m) == /\ m \in Msgs \ Bad /\ Step("encode", m)
-             /\ tg' = Load(KeyOf[m]) /\ comp' \in Compile(TmplOf[m], KeyOf[m]) /\ UNCHANGED <<objs, lenient>>
-Use(op, m) == /\ m \in objs /\ Step(op, m) /\ UNCHANGED <<tg, comp, objs, lenient>>
+                    /\ tg' = Load(KeyOf[m]) /\ lenient' = TRUE /\ UNCHANGED <<comp, objs, resolved>>
+Encode(m) == /\ m \in Msgs \ (Bad \cup Strict) /\ Step("encode", m)
+             /\ tg' = Load(KeyOf[m]) /\ comp' \in Compile(TmplOf[m], KeyOf[m]) /\ UNCHANGED <<objs, lenient, resolved>>
+(* the encoder is asked for an identification whose tables are not all there: refused, nothing is loaded *)
+EncodeRefused(m) == /\ m \in Strict /\ Step("encode", m)
+                    /\ resolved' = IF resolved = "none" THEN "strict" ELSE resolved
+                    /\ UNCHANGED <<tg, comp, objs, lenient>>
+Use(op, m) == /\ m \in objs /\ Step(op, m) /\ UNCHANGED <<tg, comp, objs, lenient, resolved>>
 
-Next == \E m \in Msgs : Decode(m) \/ DecodeFails(m) \/ DecodeLenient(m) \/ Encode(m) \/ Use("query", m) \/ Use("render", m) \/ Use("rewire", m)
+Next == \E m \in Msgs : Decode(m) \/ DecodeFails(m) \/ DecodeLenient(m) \/ Encode(m) \/ EncodeRefused(m) \/ Use("query", m) \/ Use("render", m) \/ Use("rewire", m)
 
 SizeBounded == Len(tg) <= TgLimit /\ (CompMax >= 0 => Cardinality(comp) <= CompMax)
 NoDuplicateKeys == \A i, j \in 1..Len(tg) : tg[i] = tg[j] => i = j
 (* a key that was requested last is always present afterwards *)
-LastRequestedIsCached == (hist # <<>> /\ hist[Len(hist)].op \in {"decode", "encode", "decode_fails", "decode_ive"}) => Has(tg, KeyOf[hist[Len(hist)].m])
+LastRequestedIsCached == (hist # <<>> /\ hist[Len(hist)].op \in {"decode", "encode", "decode_fails", "decode_ive"} /\ ~(hist[Len(hist)].op = "encode" /\ hist[Len(hist)].m \in Strict))
+        => Has(tg, KeyOf[hist[Len(hist)].m])
 
 EmitTransition == PrintT(ToJson(hist'))
 =============================================================================
